@@ -600,6 +600,7 @@ namespace
         Obs obs;
         obs.nested = nested;
         std::vector<std::string> lines;
+        bool                     failed = false;
         {
             GraphExecutorBuilder eb;
             eb.graph_builder(std::move(gb))
@@ -609,13 +610,26 @@ namespace
             eb.add_lifecycle_observer(&obs);
             GraphExecutorValue executor = eb.make_executor();
             auto               view     = executor.view();
-            view.run();
+            // an uncaptured child exception ends the run: the cycles before it are still reported
+            std::size_t failed_at = cycles.size();
+            try { view.run(); }
+            catch (const std::exception &e)
+            {
+                if (std::getenv("HGV_DEBUG")) { std::cerr << e.what() << "\n"; }
+                failed_at = testing::cycle_offset(view.graph().evaluation_time());
+                failed    = true;
+            }
 
             auto recorded = testing::get_recorded_deltas(view.graph().global_state(), "hgv::out");
             std::vector<std::optional<Value>> erecorded;
             if (cfg.err) { erecorded = testing::get_recorded_deltas(view.graph().global_state(), "hgv::err"); }
             for (std::size_t i = 0; i < cycles.size(); ++i)
             {
+                if (i >= failed_at)
+                {
+                    lines.push_back("err:exception");
+                    continue;
+                }
                 const bool have = i < obs.cycles.size() && obs.cycles[i].seen;
                 const bool rec  = i < recorded.size() && recorded[i].has_value();
                 if (!have)
@@ -636,7 +650,7 @@ namespace
                 lines.push_back(s.str());
             }
         }
-        lines.push_back("end ev=" + events_text(obs.shutdown, false));
+        lines.push_back(failed ? std::string{"err:exception"} : "end ev=" + events_text(obs.shutdown, false));
         return lines;
     }
 }  // namespace
